@@ -41,7 +41,7 @@ Asked(loaders, path) == LET f == FirstWith(loaders, path) IN
 
 R(out, err, asked) == [out |-> out, err |-> err, asked |-> asked]
 
-RECURSIVE RenderItems(_, _, _, _, _), Compile(_, _, _, _)
+RECURSIVE RenderItems(_, _, _, _, _), Compile(_, _, _, _), RenderFile(_, _, _)
 
 \* Compile(loaders, path, content, fuel): what compiling a template fetches and whether it fails: static references are
 \* resolved and compiled at compile time (also in branches never executed)
@@ -58,6 +58,17 @@ Compile(loaders, path, items, fuel) ==
        IN IF here.err # "" THEN here
           ELSE LET rest == Compile(loaders, path, Tail(items), fuel) IN R(<<>>, rest.err, here.asked \cup rest.asked)
 
+\* a template that extends renders its parent's document (what it writes itself outside blocks is ignored)
+ExtendsOf(items) == LET S == {i \in 1..Len(items) : items[i].t = "ref" /\ items[i].kind = "extends"} IN
+                    IF S = {} THEN 0 ELSE CHOOSE i \in S : TRUE
+\* rendering the (compiled) template at path p: its own items, or - if it extends - its parent's
+RenderFile(loaders, p, fuel) ==
+  LET items == loaders[FirstWith(loaders, p)][p] IN
+  LET e == ExtendsOf(items) IN
+  IF fuel = 0 THEN R(<<>>, "cycle", {})
+  ELSE IF e = 0 THEN RenderItems(loaders, p, items, R(<<>>, "", {}), fuel)
+  ELSE RenderFile(loaders, Abs(p, items[e].name), fuel - 1)
+
 \* execution of a compiled template's items
 RenderItems(loaders, path, items, acc, fuel) ==
   IF items = <<>> THEN acc
@@ -67,24 +78,20 @@ RenderItems(loaders, path, items, acc, fuel) ==
          CASE it.t = "text" -> R(<<it.s>>, "", {})
            [] it.kind \in {"include", "include_if", "ssi_parsed"} ->
                 LET p == Abs(path, it.name) IN LET f == FirstWith(loaders, p) IN
-                IF f = 0 THEN R(<<>>, "", {}) ELSE RenderItems(loaders, p, loaders[f][p], R(<<>>, "", {}), fuel - 1)
+                IF f = 0 THEN R(<<>>, "", {}) ELSE RenderFile(loaders, p, fuel - 1)
            [] it.kind \in {"lazy", "lazy_if"} ->
                 \* compiled when executed: fetch, compile (with everything it statically refers to), render
                 LET p == Abs(path, it.name) IN LET f == FirstWith(loaders, p) IN
                 IF f = 0 THEN R(<<>>, IF it.kind = "lazy_if" THEN "" ELSE "missing", Asked(loaders, p))
                 ELSE LET c == Compile(loaders, p, loaders[f][p], fuel - 1) IN
                      IF c.err # "" THEN R(<<>>, c.err, Asked(loaders, p) \cup c.asked)
-                     ELSE LET r == RenderItems(loaders, p, loaders[f][p], R(<<>>, "", {}), fuel - 1) IN
+                     ELSE LET r == RenderFile(loaders, p, fuel - 1) IN
                           R(r.out, r.err, Asked(loaders, p) \cup c.asked \cup r.asked)
            [] it.kind = "ssi" ->
                 LET p == Abs(path, it.name) IN LET f == FirstWith(loaders, p) IN R(<<<<"RAW", f, p>>>>, "", {})
            [] it.kind = "import" -> R(<<>>, "", {})
            [] it.kind = "extends" -> R(<<>>, "", {})
        IN RenderItems(loaders, path, Tail(items), R(acc.out \o step.out, step.err, acc.asked \cup step.asked), fuel)
-
-\* a template that extends renders its parent's document (what it writes itself outside blocks is ignored)
-ExtendsOf(items) == LET S == {i \in 1..Len(items) : items[i].t = "ref" /\ items[i].kind = "extends"} IN
-                    IF S = {} THEN 0 ELSE CHOOSE i \in S : TRUE
 
 \* FromFile(root) and Execute: [out, err, asked]
 Render(loaders, rootName, fuel) ==
@@ -94,10 +101,7 @@ Render(loaders, rootName, fuel) ==
   ELSE LET items == loaders[f][p] IN
        LET c == Compile(loaders, p, items, fuel) IN
        IF c.err # "" THEN R(<<>>, c.err, Asked(loaders, p) \cup c.asked)
-       ELSE LET e == ExtendsOf(items) IN
-            LET r == IF e = 0 THEN RenderItems(loaders, p, items, R(<<>>, "", {}), fuel)
-                     ELSE LET pp == Abs(p, items[e].name) IN
-                          RenderItems(loaders, pp, loaders[FirstWith(loaders, pp)][pp], R(<<>>, "", {}), fuel) IN
+       ELSE LET r == RenderFile(loaders, p, fuel) IN
             R(r.out, r.err, Asked(loaders, p) \cup c.asked \cup r.asked)
 
 \* ---- properties of the definition
